@@ -285,21 +285,48 @@ func decryptKeyV1(keyProtected *encryptedKeyJSONV1, auth string) (keyBytes []byt
 
 func getKDFKey(cryptoJSON cryptoJSON, auth string) ([]byte, error) {
 	authArray := []byte(auth)
-	salt, err := hex.DecodeString(cryptoJSON.KDFParams["salt"].(string))
+	saltHex, ok := cryptoJSON.KDFParams["salt"].(string)
+	if !ok {
+		return nil, fmt.Errorf("invalid KDF params: salt is missing or not a string")
+	}
+	salt, err := hex.DecodeString(saltHex)
 	if err != nil {
 		return nil, err
 	}
-	dkLen := ensureInt(cryptoJSON.KDFParams["dklen"])
+	dkLen, err := kdfParamInt(cryptoJSON.KDFParams, "dklen")
+	if err != nil {
+		return nil, err
+	}
+	// bytes [0:16] of the derived key encrypt, bytes [16:32] authenticate
+	if dkLen < 32 {
+		return nil, fmt.Errorf("invalid KDF params: dklen %d is too short, need at least 32", dkLen)
+	}
 
 	if cryptoJSON.KDF == keyHeaderKDF {
-		n := ensureInt(cryptoJSON.KDFParams["n"])
-		r := ensureInt(cryptoJSON.KDFParams["r"])
-		p := ensureInt(cryptoJSON.KDFParams["p"])
+		n, err := kdfParamInt(cryptoJSON.KDFParams, "n")
+		if err != nil {
+			return nil, err
+		}
+		r, err := kdfParamInt(cryptoJSON.KDFParams, "r")
+		if err != nil {
+			return nil, err
+		}
+		p, err := kdfParamInt(cryptoJSON.KDFParams, "p")
+		if err != nil {
+			return nil, err
+		}
+		// scrypt.Key divides by r and p
+		if r <= 0 || p <= 0 {
+			return nil, fmt.Errorf("invalid KDF params: scrypt r (%d) and p (%d) must be positive", r, p)
+		}
 		return scrypt.Key(authArray, salt, n, r, p, dkLen)
 
 	} else if cryptoJSON.KDF == "pbkdf2" {
-		c := ensureInt(cryptoJSON.KDFParams["c"])
-		prf := cryptoJSON.KDFParams["prf"].(string)
+		c, err := kdfParamInt(cryptoJSON.KDFParams, "c")
+		if err != nil {
+			return nil, err
+		}
+		prf, _ := cryptoJSON.KDFParams["prf"].(string)
 		if prf != "hmac-sha256" {
 			return nil, fmt.Errorf("Unsupported PBKDF2 PRF: %s", prf)
 		}
@@ -310,13 +337,14 @@ func getKDFKey(cryptoJSON cryptoJSON, auth string) ([]byte, error) {
 	return nil, fmt.Errorf("Unsupported KDF: %s", cryptoJSON.KDF)
 }
 
-// TODO: can we do without this when unmarshalling dynamic JSON?
-// why do integers in KDF params end up as float64 and not int after
-// unmarshal?
-func ensureInt(x interface{}) int {
-	res, ok := x.(int)
-	if !ok {
-		res = int(x.(float64))
+// kdfParamInt fetches an integer KDF parameter; a key file is untrusted input, so a
+// missing or mistyped parameter is an error rather than a failed type assertion.
+func kdfParamInt(params map[string]interface{}, name string) (int, error) {
+	switch v := params[name].(type) {
+	case int:
+		return v, nil
+	case float64:
+		return int(v), nil
 	}
-	return res
+	return 0, fmt.Errorf("invalid KDF params: %s is missing or not a number", name)
 }
